@@ -10,6 +10,8 @@ import DafRel.Lemmas.ConformSound
 
 namespace DafRel
 
+variable {I : NodeInv}
+
 theorem hasDup_select (items : List (Tag × SqlExpr)) (frm : From) (wh : List SqlPred) (d : Bool)
     (ob : List (SqlExpr × Bool)) (a : Nat) (b : Option Nat) (h : (Query.select items frm wh d ob a b).hasDup = false) :
     From.hasDup frm = false ∧ (From.names frm).Nodup := by
@@ -17,13 +19,13 @@ theorem hasDup_select (items : List (Tag × SqlExpr)) (frm : From) (wh : List Sq
   exact h
 
 /-- The joint statement. -/
-structure CompileOK (σ : Leaves) (s : SqlState) (fuel : Nat) : Prop where
-  select : ∀ S ctr q c, Good σ S → S.isSelect = true → S.SqlReady s s.tables σ →
+structure CompileOK (I : NodeInv) (σ : Leaves) (s : SqlState) (fuel : Nat) : Prop where
+  select : ∀ S ctr q c, Good I σ S → S.isSelect = true → S.SqlReady s s.tables σ →
     compileSelect s fuel S ctr = .ok (q, c) → q.hasDup = false → (Query.eval s.tables q).rows = sem σ S
-  payload : ∀ t ctr p c, Good σ t → t.SqlReady s s.tables σ → toPayload s fuel t ctr = .ok (p, c) →
+  payload : ∀ t ctr p c, Good I σ t → t.SqlReady s s.tables σ → toPayload s fuel t ctr = .ok (p, c) →
     From.hasDup p.frm = false → (From.names p.frm).Nodup → PaySem s.tables p (sem σ t) t.columns
 
-theorem compile_zero (σ : Leaves) (s : SqlState) : CompileOK σ s 0 :=
+theorem compile_zero (σ : Leaves) (s : SqlState) : CompileOK I σ s 0 :=
   ⟨fun S ctr q c _ _ _ h _ => (by rw [compileSelect] at h; cases h),
    fun t ctr p c _ _ h _ _ => (by rw [toPayload] at h; cases h)⟩
 
@@ -31,8 +33,10 @@ end DafRel
 
 namespace DafRel
 
-theorem payload_step (σ : Leaves) (s : SqlState) (fuel : Nat) (ih : CompileOK σ s fuel) :
-    ∀ t ctr p c, Good σ t → t.SqlReady s s.tables σ → toPayload s (fuel+1) t ctr = .ok (p, c) →
+variable {I : NodeInv}
+
+theorem payload_step (σ : Leaves) (s : SqlState) (fuel : Nat) (ih : CompileOK I σ s fuel) :
+    ∀ t ctr p c, Good I σ t → t.SqlReady s s.tables σ → toPayload s (fuel+1) t ctr = .ok (p, c) →
       From.hasDup p.frm = false → (From.names p.frm).Nodup → PaySem s.tables p (sem σ t) t.columns := by
   intro t ctr p c gt hrd h hdup hnd
   cases t with
@@ -162,6 +166,8 @@ end DafRel
 
 namespace DafRel
 
+variable {I : NodeInv}
+
 /-- The payload of an atom (leaf, materialization, transfer) that holds one. -/
 theorem atom_payload (σ : Leaves) (s : SqlState) (t : Rel) (p : SqlPayload) (hrd : t.SqlReady s s.tables σ)
     (h : t.payloadSql s = some p) : PaySem s.tables p (sem σ t) t.columns := by
@@ -186,8 +192,8 @@ theorem atom_payload (σ : Leaves) (s : SqlState) (t : Rel) (p : SqlPayload) (hr
   | unary => simp [Rel.payloadSql] at h
   | binary => simp [Rel.payloadSql] at h
 
-theorem select_step (σ : Leaves) (s : SqlState) (fuel : Nat) (ih : CompileOK σ s fuel) :
-    ∀ S ctr q c, Good σ S → S.isSelect = true → S.SqlReady s s.tables σ →
+theorem select_step (σ : Leaves) (s : SqlState) (fuel : Nat) (ih : CompileOK I σ s fuel) :
+    ∀ S ctr q c, Good I σ S → S.isSelect = true → S.SqlReady s s.tables σ →
       compileSelect s (fuel+1) S ctr = .ok (q, c) → q.hasDup = false → (Query.eval s.tables q).rows = sem σ S := by
   intro S ctr q c gS hs hrd h hdup
   obtain ⟨hS, gk⟩ := gS.selInv hs
@@ -217,7 +223,7 @@ theorem select_step (σ : Leaves) (s : SqlState) (fuel : Nat) (ih : CompileOK σ
       rename_i l r cc
       split at h
       · rename_i o1 s1 p1 d1 a1 b1 k1 i1 t1 o2 s2 p2 d2 a2 b2 k2 i2 t2
-        have hgc := (hskip ▸ gk : Good σ (.binary .chain _ _ cc)).chainInv
+        have hgc := (hskip ▸ gk : Good I σ (.binary .chain _ _ cc)).chainInv
         obtain ⟨hr1, hr2, _⟩ := hsk
         cases hl : compileSelect s fuel (Rel.select o1 s1 p1 d1 a1 b1 k1 i1 t1) ctr with
         | error e => simp [hl] at h
@@ -279,7 +285,7 @@ theorem select_step (σ : Leaves) (s : SqlState) (fuel : Nat) (ih : CompileOK σ
           have htc : ∀ t, t ∈ tg.columns ↔ t ∈ (⟨so, pr, dd, a, b⟩ : Slots).columns sk.columns := by
             intro t; have := hS.cols t; rw [hslots, hskip] at this; exact this
           exact select_level_sem s.tables p _ sk.columns (⟨so, pr, dd, a, b⟩ : Slots) tg.columns items0 ob P
-            (hskip ▸ gk : Good σ sk).rows hsw htc hit hob har
+            (hskip ▸ gk : Good I σ sk).rows hsw htc hit hob har
             (fun hdd => (Cols.subset_iff _ _).mpr fun t ht =>
               (htc t).mp ((Cols.subset_iff _ _).mp (hamb hdd) t ht))
   | leaf => simp [Rel.isSelect] at hs
@@ -289,7 +295,7 @@ theorem select_step (σ : Leaves) (s : SqlState) (fuel : Nat) (ih : CompileOK σ
   | transfer => simp [Rel.isSelect] at hs
 
 /-- **The emitted SELECT evaluates to the reference rows**, for every recursion budget. -/
-theorem compile_sound (σ : Leaves) (s : SqlState) : ∀ fuel, CompileOK σ s fuel
+theorem compile_sound (σ : Leaves) (s : SqlState) : ∀ fuel, CompileOK I σ s fuel
   | 0 => compile_zero σ s
   | fuel+1 =>
     let ih := compile_sound σ s fuel
